@@ -6,7 +6,11 @@ TCat(ss) == IF ss = <<>> THEN <<>> ELSE Head(ss) \o TCat(Tail(ss))
 Utf16Unit(u) == << u % 256, u \div 256 >>
 Utf16Cp(c) == IF c < 65536 THEN Utf16Unit(c)
               ELSE LET v == c - 65536 IN Utf16Unit(55296 + (v \div 1024)) \o Utf16Unit(56320 + (v % 1024))
-Utf16LE(cps) == TCat([k \in 1..Len(cps) |-> Utf16Cp(cps[k])])
+\* (text of the Basic Multilingual Plane only: two bytes a code point, written directly - linear, so that names of tens of
+\* thousands of characters can be handled; the general definition is the concatenation below)
+Utf16LE(cps) == IF \A k \in 1..Len(cps) : cps[k] < 65536
+                THEN [i \in 1..(2 * Len(cps)) |-> IF i % 2 = 1 THEN cps[(i + 1) \div 2] % 256 ELSE cps[i \div 2] \div 256]
+                ELSE TCat([k \in 1..Len(cps) |-> Utf16Cp(cps[k])])
 Utf16Units(cps) == Len(Utf16LE(cps)) \div 2
 \* UTF-16LE bytes -> code points (unpaired surrogates are kept as they are)
 RECURSIVE Units(_)
@@ -16,7 +20,10 @@ Pair(u) == IF u = <<>> THEN <<>>
            ELSE IF Len(u) >= 2 /\ u[1] >= 55296 /\ u[1] < 56320 /\ u[2] >= 56320 /\ u[2] < 57344
                 THEN <<65536 + (u[1] - 55296) * 1024 + (u[2] - 56320)>> \o Pair(SubSeq(u, 3, Len(u)))
            ELSE <<u[1]>> \o Pair(Tail(u))
-FromUtf16LE(b) == Pair(Units(b))
+UnitsFlat(b) == [k \in 1..(Len(b) \div 2) |-> b[2 * k - 1] + 256 * b[2 * k]]
+FromUtf16LE(b) == LET u == UnitsFlat(b) IN
+                  IF \A k \in 1..Len(u) : u[k] < 55296 \/ u[k] >= 57344 THEN u      \* no surrogate: the units are the code points
+                  ELSE Pair(Units(b))
 Utf8Cp(c) == IF c < 128 THEN <<c>>
              ELSE IF c < 2048 THEN << 192 + (c \div 64), 128 + (c % 64) >>
              ELSE IF c < 65536 THEN << 224 + (c \div 4096), 128 + ((c \div 64) % 64), 128 + (c % 64) >>
